@@ -160,8 +160,12 @@ pub fn asm_event(inst: &SInst, ctx: &[SInst], tag: &str) -> Value {
             let mut bin: Vec<u32> = HEADER.to_vec();
             // (declarations count wherever they stand: every third binary with declarations opens a function first)
             thread_local! { static ASM_F: std::cell::Cell<u64> = std::cell::Cell::new(0); }
-            let lead = if !ctx.is_empty() && ASM_F.with(|n| { n.set(n.get() + 1); n.get() % 3 == 0 }) { bin.extend([(5 << 16) | 54, 9001, 9002, 0, 9003]); 1 } else { 0 };
+            // and every third one has a COMPLETE function (OpFunction .. OpFunctionEnd) between the declarations and the
+            // instruction that depends on them: what was declared at module level still counts in later functions
+            let phase = if ctx.is_empty() { 1 } else { ASM_F.with(|n| { n.set(n.get() + 1); n.get() % 3 }) };
+            let mut lead = if phase == 0 { bin.extend([(5 << 16) | 54, 9001, 9002, 0, 9003]); 1 } else { 0 };
             for c in ctx { bin.extend(c.encode()); }
+            if phase == 2 { bin.extend([(5 << 16) | 54, 9001, 9002, 0, 9003, (2 << 16) | 248, 9004, (1 << 16) | 253, (1 << 16) | 56, (5 << 16) | 54, 9001, 9005, 0, 9003, (2 << 16) | 248, 9006]); lead += 6; }
             bin.extend(ws.iter());
             let mut c = Scripted::new(vec![]);
             // alternately through parse_words and parse_bytes: the two entry points must agree (the instruction under test
@@ -377,7 +381,9 @@ pub fn random_module(g: &Gram, rng: &mut Rng, max_insts: usize) -> (Vec<u32>, Ve
     ws[1] = *rng.pick(&[0x0001_0000u32, 0x0001_0300, 0x0001_0600, 0x0002_0100]);
     ws[3] = rng.below(5000) as u32;
     let mut starts = vec![];
-    let n = 1 + rng.below(max_insts);
+    // now and then far more instructions than the short streams have (a count at a power of two and its neighbours)
+    scale_reset_mod();
+    let n = 1 + rng.count_mod(max_insts);
     let mut emitted = 0;
     for _ in 0..n {
         let op = match rng.below(10) {
